@@ -10,8 +10,8 @@
 #   flaky thread/network harness: the case is replayed up to 'confirm_runs' times, any failure confirms
 
 def rc(bin, quick_workers=4, thorough_workers=16, quick_timeout=300, thorough_timeout=3600, confirm='det',
-       confirm_runs=3, set='asan', replay_timeout=60, extra_src=(), libs=()):
-    return dict(kind='rc', bin=bin, src='harness/%s.cpp' % bin, set=set,
+       confirm_runs=3, set='asan', replay_timeout=60, extra_src=(), libs=(), src=None):
+    return dict(kind='rc', bin=bin, src=src or 'harness/%s.cpp' % bin, set=set,
                 workers=dict(quick=quick_workers, thorough=thorough_workers),
                 timeout=dict(quick=quick_timeout, thorough=thorough_timeout),
                 confirm=confirm, confirm_runs=confirm_runs, replay_timeout=replay_timeout,
